@@ -16,7 +16,8 @@ P = {
          "order, start<=end, routed machine, one operation per machine); compiled initial states satisfy it (C01_initial); it "
          "survives every validated applied transition for every instance with non-negative times, every oracle/seed "
          "(C01_one_transition_partial), hence holds in every state and micro-state reachable through the middleware under any "
-         "action sequence of any length (C01_reachable_partial, C01_micro_states_partial, C01_step_partial). PARTIAL: one side "
+         "action sequence of any length (C01_reachable_partial, C01_micro_states_partial, C01_step_partial), and end to end from "
+         "every document the compiler model accepts (C01_from_document_partial). PARTIAL: one side "
          "condition (transit_side_b: an AGV never takes a job in process) is a hypothesis on the micro-log, evaluated by the "
          "extracted monitor on every transition the implementation applies. " + TIE),
  "C02": ("SM", "Theorems (Props/C02.v; SMP/Post, Offers): exact post-state of SETUP->WORKING (operation and machine get start=now, "
@@ -55,7 +56,9 @@ P = {
          "compared with calculate_lower_bound on generated and shipped instances on every run."),
  "C07": ("SM", "Theorems (Props/C07.v; SMP/Post, Offers): dispatch stamps occupied_till = now + travel(AGV position -> job's place) read "
          "from the directed matrix entry, pickup stamps now + travel(job's place -> destination) sampled now, delivery puts the job at "
-         "the BACK of the route's destination buffer and frees the AGV claim; AGV timed events are created only when due. One "
+         "the BACK of the route's destination buffer and frees the AGV claim; AGV timed events are created only when due; the pickups "
+         "the simulator schedules itself are only for the claimed job and only when it is ready (C07_pickup_only_claimed_ready) and "
+         "satisfy, where created, the side conditions the partial theorems of C01/C04 assume (C07_side_conditions_at_creation). One "
          "transition at a time, all states/instances/oracles. " + TIE),
  "C08": ("SM", "Theorems (Props/C08.v): capacity_b (no buffer above its capacity) in every reachable state and micro-state (from WFS); "
          "insertion at the back and release-by-discipline are post-state theorems in SMP/Post (post_to_transit: an ordered buffer "
@@ -65,7 +68,8 @@ P = {
          "moves the job in; offers only name idle machines; WORKING starts no earlier than the setup end (clock invariant); tool frame. " + TIE),
  "C10": ("SM", "Theorems (Props/C10.v): WORKING->OUTAGE / TRANSIT->OUTAGE block for exactly the longest sampled active outage, durations "
          "non-negative, no outage when none is due, release makes every record inactive and remembers its own end time, an OUTAGE "
-         "component accepts only the release transition. " + TIE),
+         "component accepts only the release transition; over whole runs: outside OUTAGE every record is inactive and active records "
+         "have start <= end in every reachable state and micro-state (C10_outage_records_*, SMP/Outages.v, no side condition). " + TIE),
  "C11": ("SM", "Theorems (Props/C11.v; SMP/Offers): every offered transport/machine transition passes validation and names a ready job "
          "(offers_are_valid). Absence of deadlock is FALSE of the code and refuted by theorem inside the property's configuration "
          "class: C11_refuted (always-accept reaches a non-terminal state without offers; every further action raises, for every "
@@ -90,12 +94,16 @@ P = {
          "the state of the component with that NUMBER (not list position). Tie as C14 plus an independent reading of the state indexed "
          "by number."),
  "C16": ("Dsl", "Theorems (Props/C16.v; Dsl/Doc, DocP): in the compiler model, entry (a,b) of the travel matrix becomes the directed time "
-         "a->b (C16_direction). The rest of 'the instance is what the document describes / malformed documents are rejected' is "
+         "a->b (C16_direction); jobs, operation order, machines and durations equal the document's job table (C16_jobs_as_written); "
+         "numbers of machines/AGVs, standalone buffers and the early-transport switch are the document's with the documented "
+         "defaults (C16_shape_as_written). The rest of 'the instance is what the document describes / malformed documents are rejected' is "
          "decided by correspondence: the extracted compiler model runs on an independently tokenised document and must equal "
          "Compiler.compile (instance, initial state, labels); direct readings of the document (travel table, ids) and 15 kinds of "
          "malformed variants (must raise a jobshoplab error) run on every document. Known finding: job labels are ignored."),
  "C17": ("Dsl", "Theorems (Props/C17.v): generated identifiers are fresh (never collide with ids the document registered), buffer ids are "
-         "unique, listed stores keep their order, the model is a function (deterministic). Tie: as C16, plus compiling the same text in "
+         "unique, listed stores keep their order, the model is a function (deterministic); the initial state of EVERY accepted document "
+         "satisfies the hypotheses of the state-machine theorems: fresh_b (C01), clock_b (C12), agv_load_b (C03) "
+         "(C17_initial_state_meets_hypotheses). Tie: as C16, plus compiling the same text in "
          "processes with different PYTHONHASHSEED must give identical results; the compiled initial state must satisfy the store/clock "
          "clauses and fresh_b."),
  "C18": ("Env", "Theorems (Props/C18.v; SMP/Decline): declining with k>1 offers leaves the shop untouched and removes exactly that offer; "
@@ -104,8 +112,9 @@ P = {
          " middleware.step is replayed on the middleware model with its counters."),
  "C19": ("Obs", "Theorems (Props/C19.v; Obs/Reward, RewardP): exact rational reward model - non-final steps yield only the bounded "
          "non-positive shaping term, truncation yields truncation_bias, the terminal main term is strictly decreasing in the makespan, "
-         "equals 1 at the lower bound, <= 1 above it; C19_finite_refuted: division by zero when lower bound = sum of durations (known "
-         "finding). Tie: every reward of generated episodes is compared with the exact model value (1e-9) and the clauses are "
+         "equals 1 at the lower bound, <= 1 above it; C19_finite_refuted: division by zero when lower bound = sum of durations; "
+         "C19_decreasing_refuted_reentrant: for re-entrant routes the bound exceeds the sum of durations and the main term grows "
+         "with the makespan (both known findings). Tie: every reward of generated episodes is compared with the exact model value (1e-9) and the clauses are "
          "evaluated on the implementation's value."),
  "C20": ("Env", "Theorems (Props/C20.v; SMP/Atomic): a failing state.step returns exactly its input state (C20_atomic), any action "
          "containing an invalid transition fails (C20_rejects), wrong-phase transitions are invalid, and the environment truncates on a "
